@@ -45,10 +45,22 @@ theorem get_keeps_files (c : LruM.Lru) (k : LruM.Key) : (c.get k).1.files = c.fi
 theorem reopen_keeps_files_partial (c : LruM.Lru) (order : List (LruM.Key × Nat)) (hfit : (order.map (·.2)).sum ≤ c.cap) :
     (c.reopen order).files = order := LruM.Lru.reopen_keeps_files c order hfit
 
-/-- F-C15-a (negative, kernel-checked, open): a pre-populated directory larger than `SCCACHE_CACHE_SIZE` is evicted by
-    the start-up scan — also when the cache is then used read-only -/
+/-- the read-write start-up scan evicts a pre-populated directory larger than `SCCACHE_CACHE_SIZE` (intended); before fix a5fe656 a
+    read-only cache was opened the same way (F-C15-a) -/
 theorem reopen_evicts_witness : (({ cap := 15 } : LruM.Lru).reopen [(1, 10), (2, 10)]).files = [(2, 10)] :=
   LruM.Lru.reopen_evicts_witness
+
+/-- `ro_entries_unchanged` at full strength (fix a5fe656): a read-only cache is opened without a size limit, so its start-up scan and
+    **every** sequence of lookups after it leave exactly the files that were there — for every configured size, also one smaller than
+    the directory.  (`h64`: the directory holds fewer than 2^64 bytes.) -/
+theorem readonly_session_keeps_files (c : LruM.Lru) (order : List (LruM.Key × Nat)) (ks : List LruM.Key)
+    (h64 : (order.map (·.2)).sum ≤ LruM.Lru.u64Max) :
+    (ks.foldl (fun acc k => (acc.get k).1) (c.openReadOnly order)).files = order :=
+  LruM.Lru.readOnly_session_keeps_files c order ks h64
+
+/-- F-C15-a fixed witness: the directory of `reopen_evicts_witness`, opened read-only with the same configured size -/
+theorem readonly_open_fixed_witness : ((({ cap := 15 } : LruM.Lru).openReadOnly [(1, 10), (2, 10)]).files) = [(1, 10), (2, 10)] :=
+  LruM.Lru.openReadOnly_keeps_files _ _ (by decide)
 
 /-! ## when is the cache configured read-only (`ConfigM`, the real `Config::load`) -/
 open ConfigM in
